@@ -101,6 +101,22 @@ theorem inferred_bounds_only_on_generic_fields (c : Ctx) (e : Expansion) (i : Na
       | (rcases h with (h | h) | h <;> first | exact first h | exact key _ h | exact absurd h user)
       | exact absurd h (by simp)
 
+/-- `bound(...)` predicates given next to a struct's or variant's own format always reach the
+where-clause — whatever the shape: also for unit variants and the field-less `V()` / `V {}`, whose
+format can still use a type parameter statically (`T::NAME`). -/
+theorem user_bounds_always_kept (c : Ctx) (e : Expansion) (a : FmtAttr) (h : e.attrs.fmt = some a)
+    (b : String) (hb : b ∈ e.attrs.bounds) : Bound.user b ∈ displayBounds c e := by
+  unfold displayBounds
+  simp only [h]
+  have hm : Bound.user b ∈ attrBounds c a e.fields ++ e.attrs.bounds.map Bound.user :=
+    List.mem_append.2 (Or.inr (List.mem_map.2 ⟨b, hb, rfl⟩))
+  cases (sharedAttrInfo c e).2 with
+  | false => simpa using hm
+  | true =>
+    cases e.shared with
+    | none => simpa using hm
+    | some sh => simp only [if_true]; exact List.mem_append.2 (Or.inl hm)
+
 /-- Implicit delegation (no attribute, no enum-level attribute): exactly the first field is
 bounded, by the derived trait, and only when its type mentions a type parameter. -/
 theorem implicit_bounds (c : Ctx) (ident : Name) (fields : FieldsD) :
